@@ -8,3 +8,13 @@ claim("C15", "listen",
       "All 85 keys of length <= 3 over {a,b,é,😀} are written under thousands of generated subscription sets, and random histories mix local writes, deletes, gossip to a replica, stale re-deliveries, owner GC (resets), handle drops and forever(); the callback log is compared per event with the expected multiset. Exploration with an exhaustive key scope.",
       "Expected replicated notifications are derived from the replica's copy before/after each delivery (state.rs), independent of the listener code.",
       "DESIGN.md 4/C15")
+claim("C17", "select",
+      "exhaustive small-scope enumeration x scripted RNGs, validity-predicate oracle",
+      "All 54,264 multiset structures of <= 6 addresses over the 15 membership combinations of {peer, live, dead, seed} are enumerated under constant/extreme/counter/alternating and seeded generator scripts; each result is checked against the selection contract (<= 3 distinct targets from the right pool, picks inside their sets, seed reached when isolated, dead probed when outnumbering). Exhaustive in the stated scope for the scripted generators.",
+      "Random-generator outputs are sampled (scripts), not enumerated; a watchdog turns a non-terminating sampler into exit 2.",
+      "DESIGN.md 4/C17")
+claim("C07", "mtu",
+      "property-based generation of (state, digest, budget) + boundary-directed search; independent decoder + exactness oracle against sender state",
+      "Sender states are built on a real node (own namespace through the API, up to 40 other members through honest-form messages), peer digests are generated relative to them, and every SYN-ACK/ACK (and facade deltas under budgets 100..65,507) is measured, decoded by an independent decoder and compared entry by entry with the sender's copies; a binary search sizes the state so the reply lands on the 65,507-byte limit and sweeps it byte by byte. Exploration.",
+      "Content classes are deterministic generators (constant, hex, printable, max-entropy UTF-8); zstd is trusted as a codec; strings <= 65,535 bytes.",
+      "DESIGN.md 4/C07")
